@@ -665,4 +665,66 @@ theorem specDoc_cases (a : DocArgs) :
               · simp [specDoc, validateDoc, he, hl, hh, sectionsLegal_eq, hs, emptyMultiIndexes]
               · simp [specDoc, validateDoc, he, hl, hh, sectionsLegal_eq, hs]
 
+/-! ## frames: the height of a frame is not an input of the document rules -/
+
+theorem reheight_cols (fs : List Frame) (hs : List Nat) :
+    (DfData.withRows.reheight fs hs).map (·.cols) = fs.map (·.cols) := by
+  induction fs generalizing hs with
+  | nil => simp [DfData.withRows.reheight]
+  | cons f fs ih =>
+    cases hs with
+    | nil => simp [DfData.withRows.reheight]
+    | cons h hs => simp [DfData.withRows.reheight, ih]
+
+theorem withRows_toArg (d : DfData) (hs : List Nat) : (d.withRows hs).toArg = d.toArg := by
+  cases d with
+  | none => simp [DfData.withRows, DfData.toArg]
+  | single f => cases hs <;> simp [DfData.withRows, DfData.toArg]
+  | multi fs => simp [DfData.withRows, DfData.toArg, reheight_cols]
+
+theorem contains_getD_of_all {cols : List String} {o : Option (List String)} {name : String}
+    (hc : cols.contains name = false) (hm : (o.getD []).contains name = true) :
+    colsPresent cols o = false := by
+  cases o with
+  | none => simp at hm
+  | some names =>
+    simp only [Option.getD_some, List.contains_iff_mem] at hm
+    simp only [colsPresent]
+    apply Bool.eq_false_iff.mpr
+    intro hall
+    rw [List.all_eq_true] at hall
+    have := hall name hm
+    rw [hc] at this
+    cases this
+
+theorem sectionOk_false_of_missing (cols : List String) (b : BodySpec) (name : String)
+    (h : missingName cols b name = true) : sectionOk cols b = false := by
+  simp only [missingName, Bool.and_eq_true, Bool.or_eq_true, Bool.not_eq_true'] at h
+  obtain ⟨hc, hk⟩ := h
+  simp only [sectionOk]
+  rcases hk with (hk | hk) | hk
+  · simp [contains_getD_of_all hc hk]
+  · simp [contains_getD_of_all hc hk]
+  · simp [contains_getD_of_all hc hk]
+
+theorem sectionsOk_false_of_index (secs : List (List String)) (bs : List BodySpec) (i : Nat)
+    (h1 : i < secs.length) (h2 : i < bs.length) (h : sectionOk secs[i] bs[i] = false) :
+    sectionsOk secs bs = false := by
+  induction secs generalizing bs i with
+  | nil => simp at h1
+  | cons s ss ih =>
+    cases bs with
+    | nil => simp at h2
+    | cons b bs' =>
+      cases i with
+      | zero =>
+        simp only [List.getElem_cons_zero] at h
+        simp [sectionsOk, h]
+      | succ j =>
+        simp only [List.getElem_cons_succ] at h
+        simp only [List.length_cons, Nat.add_lt_add_iff_right] at h1 h2
+        have ih' := ih bs' j h1 h2 h
+        simp only [sectionsOk] at ih' ⊢
+        simp [List.zip_cons_cons, List.all_cons, ih']
+
 end Proofs.Validate
